@@ -8,8 +8,8 @@ Re-checked on every run against the regenerated constants (`Gen.Root.jMap`, `Gen
 for chunk); what the text has to denote is `OjgVerif.Writer.norm` (`Writer/JsonSpec.lean`).
 
 Proved here for the `oj` writers (tight and indented, Sort on and off, OmitNil/OmitEmpty,
-HTML-safe on and off, with and without an `io.Writer`), and for `pretty` WITHOUT alignment, for every
-option combination (`C04_pretty_noalign`; since fix aa799cb its omission rule is the documented
+HTML-safe on and off, with and without an `io.Writer`), and for `pretty` whenever no alignment TABLE
+is used (`C04_pretty_align_partial`, in particular Align off: `C04_pretty_noalign`; since fix aa799cb its omission rule is the documented
 one). The full statement for `pretty` is false because of Align (`C04_pretty_full_false`: known
 finding C04-pretty-align-comma); with Align the model is tied by correspondence and judged by the oracle only. -/
 namespace OjgVerif.C04
@@ -147,14 +147,17 @@ is now written as valid JSON -/
 example : Spec.accepts (prettyWrite { width := 80, maxDepth := 9, align := true } id
     (.arr [.arr [.obj [([97], .int 1)]], .arr [.arr [.arr [.int 5]]]])) = true := by decide +kernel
 
-/-- the partial theorem: excluding exactly `Align`, `pretty.JSON` has the property as stated — for
-every Width, MaxDepth, HTML-safe setting, OmitNil/OmitEmpty and iteration order the text is ONE
-valid JSON document whose reading is the tree (members in ascending key order) minus exactly the
-members OmitNil / OmitEmpty name -/
-theorem C04_pretty_noalign (p : POpts) (ha : p.align = false) (ord : Kvs → Kvs) (hord : IsOrder ord)
-    (v : JV) (hv : okW v) :
+/-- the partial theorem for `pretty.JSON` (full statement: `C04_pretty_full`, false). It has the
+property as stated — for every Width, MaxDepth, HTML-safe setting, OmitNil/OmitEmpty and iteration
+order the text is ONE valid JSON document whose reading is the tree (members in ascending key order)
+minus exactly the members OmitNil / OmitEmpty name — whenever no alignment TABLE is used: Align is
+off, or Align is on (keys of every map are then padded to a common column) and no array of the tree
+has two or more members that are all arrays or all objects (`noTable`). What is excluded is exactly
+the code path of `checkAlign` / `alignArray` / `alignMap`, where the known finding lives. -/
+theorem C04_pretty_align_partial (p : POpts) (ord : Kvs → Kvs) (hord : IsOrder ord) (v : JV) (hv : okW v)
+    (hnt : p.align = true → noTable v) :
     Spec.parseDoc (prettyWrite p ord v) = .one (norm (ojOptsOf p) ord v) := by
-  rw [prettyWrite_eq_ptext p ord v ha]
+  rw [prettyWrite_eq_ptext p ord hord v hnt]
   obtain ⟨b, t, hb, hsb⟩ := ptext_head (pwOf p ord v) ord (depth v) v 0 false hv
   have hp := parse_ptext jMap_safe pretty_spaces_ws (pwOf p ord v) ord hord (depth v + 1) v 0 false
     ((ptext (pwOf p ord v) ord (depth v + 1) v 0 false).length + 1) [] hv (Nat.lt_succ_self _)
@@ -163,17 +166,43 @@ theorem C04_pretty_noalign (p : POpts) (ha : p.align = false) (ord : Kvs → Kvs
   rw [hb] at hp ⊢
   exact parseDoc_of_pValue b t _ (startByte_ne_bom b hsb) (startByte_facts b hsb).1 hp
 
+/-- in particular, excluding exactly `Align`, `pretty.JSON` has the property for EVERY tree -/
+theorem C04_pretty_noalign (p : POpts) (ha : p.align = false) (ord : Kvs → Kvs) (hord : IsOrder ord)
+    (v : JV) (hv : okW v) :
+    Spec.parseDoc (prettyWrite p ord v) = .one (norm (ojOptsOf p) ord v) :=
+  C04_pretty_align_partial p ord hord v hv (by simp [ha])
+
+/-- `{"longer key":1,"k":[1,"a",{"x":null}],"m":[[1,2]]}` is a tree without tables … -/
+example : noTable (.obj [([108, 111, 110, 103, 101, 114, 32, 107, 101, 121], .int 1),
+    ([107], .arr [.int 1, .str [97], .obj [([120], .null)]]), ([109], .arr [.arr [.int 1, .int 2]])]) := by
+  simp only [noTable, noTableKvs, noTableList, and_true]
+  decide
+
+/-- … and with Align its keys are padded to a common column:
+```
+{
+  "k":          [1, "a", {"x": null}],
+  "longer key": 1
+}
+``` -/
+example : prettyWrite { align := true } id (.obj [([108, 111, 110, 103, 101, 114, 32, 107, 101, 121], .int 1),
+    ([107], .arr [.int 1, .str [97], .obj [([120], .null)]])]) =
+    [123, 10, 32, 32, 34, 107, 34, 58, 32, 32, 32, 32, 32, 32, 32, 32, 32, 32, 91, 49, 44, 32, 34, 97, 34, 44, 32,
+     123, 34, 120, 34, 58, 32, 110, 117, 108, 108, 125, 93, 44, 10, 32, 32, 34, 108, 111, 110, 103, 101, 114, 32,
+     107, 101, 121, 34, 58, 32, 49, 10, 125] := by decide +kernel
+
 /-- `{"a":[],"b":{"c":null},"d":null}` under OmitNil alone: the witness of the former finding
 C04-pretty-omit (fixed in aa799cb) now keeps `"a"` and `"b"` -/
 example : prettyWrite { omitNil := true } id
     (.obj [([97], .arr []), ([98], .obj [([99], .null)]), ([100], .null)]) =
     [123, 34, 97, 34, 58, 32, 91, 93, 44, 32, 34, 98, 34, 58, 32, 123, 125, 125] := by decide +kernel
 
-/-- streaming: without alignment the chunks `pretty.WriteJSON` hands over are, joined, the in-memory
-text, for every WriteLimit -/
-theorem C04_pretty_stream (p : POpts) (ha : p.align = false) (ord : Kvs → Kvs) (limit : Nat) (v : JV) :
+/-- streaming: when no table is aligned the chunks `pretty.WriteJSON` hands over are, joined, the
+in-memory text, for every WriteLimit -/
+theorem C04_pretty_stream (p : POpts) (ord : Kvs → Kvs) (hord : IsOrder ord) (limit : Nat) (v : JV)
+    (hnt : p.align = true → noTable v) :
     (prettyWriteTo p ord limit v).flatten = prettyWrite p ord v := by
-  rw [prettyWriteTo_flatten p ord limit v ha, prettyWrite_eq_ptext p ord v ha]
+  rw [prettyWriteTo_flatten p ord hord limit v hnt, prettyWrite_eq_ptext p ord hord v hnt]
 
 /-! ## the hypotheses are not vacuous -/
 
